@@ -73,3 +73,135 @@ MUTANTS = [
          new="        self.t_595 = self.sd_start - self.sd_end",
          why="deprecated generate_duration_stats: duration sign reversed"),
 ]
+
+# ---- wave 2: refreshed / audit survivors / size-window mutants (arbitrary thresholds; DESIGN 8.5) ----------------------------
+_VALS_CUM = "    cum_acc2 = np.cumsum(np.asarray(motion, dtype=float) ** 2)\n"
+_SIG_MASK = "    ind2 = np.where((im_vals > start * im_vals[-1]) & (im_vals < end * im_vals[-1]))\n"
+_SIG_BODY = (_SIG_MASK + "    start_time = ind2[0][0] * asig.dt\n    end_time = ind2[0][-1] * asig.dt\n")
+_BRAC_WHERE = "    ind01 = np.where(abs_motion > threshold)\n    time2 = time[ind01]\n    try:\n        if se:\n            return time2[0], time2[-1]"
+_BRAC_TIME = "    time = np.arange(asig.npts) * asig.dt\n    # Bracketed duration\n    ind01 = np.where(abs_motion > threshold)\n    time2 = time[ind01]\n    try:\n        if se:"
+
+MUTANTS = [m for m in MUTANTS if m["id"] != "c10-vals-abs-not-square"]   # its `old` text predates repo commit b611071: refreshed below
+MUTANTS += [
+    dict(id="c10-vals-abs-not-square", prop="C10", file="eqsig/im.py", old=_VALS_CUM,
+         new="    cum_acc2 = np.cumsum(np.abs(np.asarray(motion, dtype=float)))\n",
+         why="array variant accumulates |a| instead of a^2 [refreshed]"),
+    # -- audit C10 section 5 (confirmed survivors of the previous module)
+    dict(id="c10-a1-arias-path-nonstrict", prop="C10", file="eqsig/im.py",
+         old="    if im is None:\n        im_vals = calc_arias_intensity(asig)\n    else:\n        im_vals = im(asig)\n" + _SIG_MASK,
+         new="    if im is None:\n        im_vals = calc_arias_intensity(asig)\n"
+             "        ind2 = np.where((im_vals >= start * im_vals[-1]) & (im_vals <= end * im_vals[-1]))\n"
+             "    else:\n        im_vals = im(asig)\n"
+             "        ind2 = np.where((im_vals > start * im_vals[-1]) & (im_vals < end * im_vals[-1]))\n",
+         why="audit 5.1: non-strict comparisons on the default (Arias) path only"),
+    dict(id="c10-a2-vals-no-asarray", prop="C10", file="eqsig/im.py", old=_VALS_CUM,
+         new="    cum_acc2 = np.cumsum(motion ** 2)\n",
+         why="audit 5.2: reverting repo fix b611071 (a list argument raises TypeError; narrow integers wrap - not in this module's scope)"),
+    dict(id="c10-a3-sigdur-coarse-8192", prop="C10", file="eqsig/im.py", old=_SIG_MASK,
+         new="    if len(im_vals) > 8192:\n"
+             "        ind2 = (np.where((im_vals[::4] > start * im_vals[-1]) & (im_vals[::4] < end * im_vals[-1]))[0] * 4,)\n"
+             "    else:\n    " + _SIG_MASK,
+         why="audit 5.3: coarse search (every 4th sample) on records longer than 8192 samples"),
+    dict(id="c10-a4-brac-float32-6000", prop="C10", file="eqsig/im.py",
+         old="    ind01 = np.where(abs_motion > threshold)\n    time2 = time[ind01]\n",
+         new="    if asig.npts > 6000:\n        ind01 = np.where(abs_motion.astype(np.float32) > np.float32(threshold))\n"
+             "    else:\n        ind01 = np.where(abs_motion > threshold)\n    time2 = time[ind01]\n",
+         why="audit 5.4: single-precision comparison in calc_brac_dur for n > 6000"),
+    # -- window mutants
+    dict(id="c10-w-vals-carry-5000", prop="C10", file="eqsig/im.py", old=_VALS_CUM,
+         new="    sq = np.asarray(motion, dtype=float) ** 2\n"
+             "    if len(sq) <= 5000:\n"
+             "        cum_acc2 = np.cumsum(sq)\n"
+             "    else:\n"
+             "        cum_acc2 = np.empty(len(sq))\n"
+             "        carry = 0.0\n"
+             "        prev_total = 0.0\n"
+             "        for i0 in range(0, len(sq), 1024):\n"
+             "            seg = np.cumsum(sq[i0:i0 + 1024])\n"
+             "            cum_acc2[i0:i0 + 1024] = seg + carry\n"
+             "            carry = prev_total + seg[-1]\n"
+             "            prev_total = seg[-1]\n",
+         why="window n > 5000: blocked running sum of squares (1024) whose carry forgets all but the last two blocks"),
+    dict(id="c10-w-sigdur-f32-20000", prop="C10", file="eqsig/im.py", old=_SIG_MASK,
+         new="    if len(im_vals) > int('20000'):\n"
+             "        lo32, hi32 = np.float32(start * im_vals[-1]), np.float32(end * im_vals[-1])\n"
+             "        iv32 = np.asarray(im_vals, dtype=np.float32)\n"
+             "        ind2 = np.where((iv32 > lo32) & (iv32 < hi32))\n"
+             "    else:\n    " + _SIG_MASK,
+         why="window n > 20000: memory-saving single-precision mask in calc_sig_dur"),
+    dict(id="c10-w-brac-droptail-70000", prop="C10", file="eqsig/im.py",
+         old="    ind01 = np.where(abs_motion > threshold)\n    time2 = time[ind01]\n",
+         new="    if asig.npts > int('70000'):\n"
+             "        blk = 16384\n"
+             "        nb = asig.npts // blk\n"
+             "        hits = (np.asarray(abs_motion)[:nb * blk] > threshold).reshape(nb, blk)\n"
+             "        ind01 = (np.flatnonzero(hits.ravel()),)\n"
+             "    else:\n"
+             "        ind01 = np.where(abs_motion > threshold)\n    time2 = time[ind01]\n",
+         why="window n > 70000: blocked exceedance search (16384) that never looks at the last partial block"),
+    dict(id="c10-w-sigdur-arias-cache", prop="C10", file="eqsig/im.py",
+         old="    if im is None:\n        im_vals = calc_arias_intensity(asig)\n    else:\n        im_vals = im(asig)\n",
+         new="    if im is None:\n"
+             "        if 3000 < asig.npts <= 150000:\n"
+             "            im_vals = getattr(asig, '_arias_series', None)\n"
+             "            if im_vals is None or len(im_vals) != asig.npts:\n"
+             "                im_vals = calc_arias_intensity(asig)\n"
+             "                asig._arias_series = im_vals\n"
+             "        else:\n"
+             "            im_vals = calc_arias_intensity(asig)\n"
+             "    else:\n        im_vals = im(asig)\n",
+         why="window 3000 < n <= 150000: Arias series cached on the signal object, stale after reset_values"),
+    dict(id="c10-w-deprecated-defaults-700", prop="C10", file="eqsig/im.py",
+         old="    return calc_sig_dur_vals(motion, dt, start=start, end=end)",
+         new="    if len(motion) > 700:\n        return calc_sig_dur_vals(motion, dt)\n    return calc_sig_dur_vals(motion, dt, start=start, end=end)",
+         why="window n > 700: the deprecated alias drops its start / end arguments"),
+    dict(id="c10-w-stats-decimated-1500", prop="C10", file="eqsig/single.py",
+         old="        self.sd_start, self.sd_end = im.calc_sig_dur_vals(self.values, self.dt, se=True)",
+         new="        if self.npts > 1500:\n"
+             "            self.sd_start, self.sd_end = im.calc_sig_dur_vals(self.values[::2], self.dt * 2, se=True)\n"
+             "        else:\n"
+             "            self.sd_start, self.sd_end = im.calc_sig_dur_vals(self.values, self.dt, se=True)",
+         why="window n > 1500: generate_duration_stats works on every second sample"),
+    dict(id="c10-w-brac-linspace-9000", prop="C10", file="eqsig/im.py",
+         old="    time = np.arange(asig.npts) * asig.dt\n    # Bracketed duration\n",
+         new="    if asig.npts > 9000:\n        time = np.linspace(0, asig.npts * asig.dt, asig.npts)\n"
+             "    else:\n        time = np.arange(asig.npts) * asig.dt\n    # Bracketed duration\n",
+         why="window n > 9000: time axis by linspace with the wrong end point (times stretched by n/(n-1))"),
+    dict(id="c10-w-vals-f32-200000", prop="C10", file="eqsig/im.py", old=_VALS_CUM,
+         new="    if len(motion) > 200000:\n"
+             "        cum_acc2 = np.cumsum(np.asarray(motion, dtype=float) ** 2, dtype=np.float32).astype(float)\n"
+             "    else:\n    " + _VALS_CUM,
+         why="window n > 200000: running sum of squares accumulated in float32"),
+    # -- behaviour-preserving refactorings: the check must stay quiet
+    dict(id="c10-ok-sigdur-bisect", prop="C10", file="eqsig/im.py", old=_SIG_BODY, expect="survive",
+         new="    i_start = np.searchsorted(im_vals, start * im_vals[-1], side='right')\n"
+             "    i_end = np.searchsorted(im_vals, end * im_vals[-1], side='left') - 1\n"
+             "    start_time = i_start * asig.dt\n    end_time = i_end * asig.dt\n",
+         why="CORRECT for every cumulative (non-decreasing) measure: bisecting for the two crossings (the seeded change "
+             "c10-sig-dur-bisect-nonmonotone): must not be reported"),
+    dict(id="c10-ok-sigdur-two-searches", prop="C10", file="eqsig/im.py", old=_SIG_BODY, expect="survive",
+         new="    above = im_vals > start * im_vals[-1]\n    below = im_vals < end * im_vals[-1]\n"
+             "    if not np.any(above & below):\n        raise IndexError('no sample between the fractions')\n"
+             "    start_time = np.argmax(above) * asig.dt\n    end_time = (len(below) - 1 - np.argmax(below[::-1])) * asig.dt\n",
+         why="CORRECT for every cumulative (non-decreasing) measure: first-above-lo and last-below-hi searched separately (the "
+             "seeded change r3-c10-two-separate-searches): must not be reported"),
+    dict(id="c10-ok-vals-blocked", prop="C10", file="eqsig/im.py", old=_VALS_CUM, expect="survive",
+         new="    sq = np.asarray(motion, dtype=float) ** 2\n"
+             "    cum_acc2 = np.empty(len(sq))\n"
+             "    carry = 0.0\n"
+             "    for i0 in range(0, len(sq), 4096):\n"
+             "        cum_acc2[i0:i0 + 4096] = np.cumsum(sq[i0:i0 + 4096]) + carry\n"
+             "        carry = cum_acc2[min(i0 + 4096, len(sq)) - 1]\n",
+         why="CORRECT blocked running sum of squares: must not be reported"),
+]
+
+# ---- narrow integer records (raw digitiser counts): reverts of the repository repair 2c04324 (b611071: c10-a2-vals-no-asarray above)
+MUTANTS += [
+    dict(id="c10-revert-2c04324-init", prop="C10", file="eqsig/single.py",
+         old="        self._values = _float_array(values)\n", new="        self._values = np.array(values)\n",
+         why="reverts repo fix 2c04324 in Signal.__init__: an int16 / int32 / int8 record is kept in its dtype (abs of the most negative "
+             "sample wraps around: calc_brac_dur misses it; squares wrap: Arias levels wrong)"),
+    dict(id="c10-revert-2c04324-reset", prop="C10", file="eqsig/single.py",
+         old="        self._values = _float_array(new_values)\n", new="        self._values = np.array(new_values)\n",
+         why="reverts repo fix 2c04324 in Signal.reset_values: replacing the values by an int16 record keeps the dtype"),
+]
